@@ -40,7 +40,11 @@ import (
 // type-check the loader falls back to the original.  The dead helper declarations stay in the files and are hidden from
 // the rules (Engine.deadHelpers).  Positions in reports refer to the rewritten text for files that were rewritten.
 
+// inlSeq numbers the inlined bodies of one Load (labels are function-scoped: the numbers must not repeat between rounds)
+var inlSeq int
+
 type inlHelper struct {
+	closure  bool // a local function literal bound to a variable (inlineLocalClosures)
 	key      string
 	decl     *ast.FuncDecl
 	file     *ast.File
@@ -91,6 +95,71 @@ func declKey(pkgPath string, fd *ast.FuncDecl) string {
 	return k + fd.Name.Name
 }
 
+// simpleDefer: a statement of the helper's top-level list of the form `defer v.M()` or `defer v()` where v is a name
+// that the body never assigns again and never takes the address of.  Such a defer runs when the helper returns, with the
+// value v had at the defer statement: the inliner puts the rest of the body in a block of its own and the call behind
+// it (every return of the rest leaves through the end of that block).  What is lost is the run of the deferred call
+// while a panic unwinds; the state machine's panics abort the transaction and no rule here looks at that.
+func simpleDefer(fd *ast.FuncDecl, d *ast.DeferStmt) bool {
+	top := false
+	for _, st := range fd.Body.List {
+		if st == d {
+			top = true
+		}
+	}
+	if !top || len(d.Call.Args) != 0 {
+		return false
+	}
+	var v *ast.Ident
+	switch f := d.Call.Fun.(type) {
+	case *ast.Ident:
+		v = f
+	case *ast.SelectorExpr:
+		if id, ok := f.X.(*ast.Ident); ok {
+			v = id
+		}
+	}
+	if v == nil {
+		return false
+	}
+	ok := true
+	ast.Inspect(fd.Body, func(n ast.Node) bool {
+		switch x := n.(type) {
+		case *ast.AssignStmt:
+			if x.Tok == token.DEFINE {
+				// a redefinition in an inner scope is another variable; in the same scope `v, err := ..` may assign: be strict
+				for _, l := range x.Lhs {
+					if id, isId := l.(*ast.Ident); isId && id.Name == v.Name && x.Pos() > d.Pos() {
+						ok = false
+					}
+				}
+				return true
+			}
+			for _, l := range x.Lhs {
+				if id, isId := l.(*ast.Ident); isId && id.Name == v.Name {
+					ok = false
+				}
+			}
+		case *ast.UnaryExpr:
+			if id, isId := ast.Unparen(x.X).(*ast.Ident); isId && x.Op == token.AND && id.Name == v.Name {
+				ok = false
+			}
+		case *ast.IncDecStmt:
+			if id, isId := x.X.(*ast.Ident); isId && id.Name == v.Name {
+				ok = false
+			}
+		case *ast.RangeStmt:
+			for _, e := range []ast.Expr{x.Key, x.Value} {
+				if id, isId := e.(*ast.Ident); isId && id.Name == v.Name {
+					ok = false
+				}
+			}
+		}
+		return true
+	})
+	return ok
+}
+
 func inlinableDecl(fd *ast.FuncDecl) string {
 	if fd.Body == nil {
 		return "no body"
@@ -109,7 +178,9 @@ func inlinableDecl(fd *ast.FuncDecl) string {
 	ast.Inspect(fd.Body, func(n ast.Node) bool {
 		switch x := n.(type) {
 		case *ast.DeferStmt:
-			bad = "defer"
+			if !simpleDefer(fd, x) {
+				bad = "defer"
+			}
 		case *ast.GoStmt:
 			bad = "go statement"
 		case *ast.LabeledStmt:
@@ -133,7 +204,6 @@ func inlinableDecl(fd *ast.FuncDecl) string {
 func inlineNewHelpers(pkgs []*packages.Package, src func(string) []byte) (map[string][]byte, []string, []string) {
 	overlay := map[string][]byte{}
 	var done, notes []string
-	counter := 0
 	// new functions of all state-machine packages (a new exported function may be called from another package of the
 	// module: code moved between layers)
 	helpers := map[types.Object]*inlHelper{}
@@ -253,14 +323,14 @@ func inlineNewHelpers(pkgs []*packages.Package, src func(string) []byte) (map[st
 			addedImports := map[string]string{}
 			var pre []inlEdit
 			for _, s := range ss {
-				counter++
+				inlSeq++
 				s.loopLabels, s.preEdits, s.addedImports = loopLabels, &pre, addedImports
 				var repl []byte
 				var err error
 				if s.exprSite {
 					repl, err = genExprInline(p, s, src)
 				} else {
-					repl, err = genInline(p, s, counter, src)
+					repl, err = genInline(p, s, inlSeq, src)
 				}
 				if err != nil {
 					notes = append(notes, s.h.key+": not inlined ("+err.Error()+")")
@@ -453,7 +523,7 @@ func findSites(info *types.Info, helpers map[types.Object]*inlHelper, f *ast.Fil
 	})
 	ast.Inspect(fd.Body, func(n ast.Node) bool {
 		if id, ok := n.(*ast.Ident); ok && !called[id] {
-			if h := helpers[info.Uses[id]]; h != nil && h.bad == "" {
+			if h := helpers[info.Uses[id]]; h != nil && h.bad == "" && !h.closure {
 				h.bad = "used as a value"
 			}
 		}
@@ -705,7 +775,18 @@ func genInline(p *packages.Package, s *inlSite, n int, src func(string) []byte) 
 		return strings.Join(out, ", ")
 	}
 	blanks := func(n int) string { return strings.TrimSuffix(strings.Repeat("_, ", n), ", ") }
-	switch st := s.stmt.(type) {
+	// defers of the helper (all of the simpleDefer form): results go through temporaries, see below
+	var defers []*ast.DeferStmt
+	for _, st := range h.decl.Body.List {
+		if d, ok := st.(*ast.DeferStmt); ok {
+			defers = append(defers, d)
+		}
+	}
+	modeStmt := s.stmt
+	if len(defers) > 0 {
+		modeStmt = nil
+	}
+	switch st := modeStmt.(type) {
 	case *ast.ReturnStmt:
 		if s.stmt == s.inner && nres > 0 {
 			mode = "direct"
@@ -1061,6 +1142,21 @@ func genInline(p *packages.Package, s *inlSite, n int, src func(string) []byte) 
 			}
 		}
 	}
+	// a function-typed argument (a callback literal, or a variable bound to one) will be called from the inlined body:
+	// its captured variables must not be shadowed there, so every name the helper declares is renamed
+	if !h.closure {
+		for _, a := range s.call.Args {
+			if t := cinfo.TypeOf(a); t != nil {
+				if _, isFn := t.Underlying().(*types.Signature); isFn {
+					if _, isNil := ast.Unparen(a).(*ast.Ident); isNil && cinfo.Types[a].IsNil() {
+						continue
+					}
+					noteNames(h.decl)
+					break
+				}
+			}
+		}
+	}
 	// helper-local objects whose names the replicated handler uses are renamed
 	rename := map[types.Object]string{}
 	ast.Inspect(h.decl, func(nd ast.Node) bool {
@@ -1324,9 +1420,15 @@ func genInline(p *packages.Package, s *inlSite, n int, src func(string) []byte) 
 			var t, es string
 			var parts []string
 			var exprs []ast.Expr
+			lab := pre + "L"
+			for di, d := range defers {
+				if x.Pos() > d.End() {
+					lab = fmt.Sprintf("%sD%d", pre, di+1)
+				}
+			}
 			switch {
 			case nres == 0:
-				t = "break " + pre + "L"
+				t = "break " + lab
 			case len(x.Results) == nres:
 				for _, r := range x.Results {
 					parts = append(parts, hText(r.Pos(), r.End()))
@@ -1344,7 +1446,7 @@ func genInline(p *packages.Package, s *inlSite, n int, src func(string) []byte) 
 				if retFmt != nil {
 					t = retFmt(es, parts, exprs)
 				} else {
-					t = "{ " + strings.Join(rnames, ", ") + " = " + es + "; break " + pre + "L }"
+					t = "{ " + strings.Join(rnames, ", ") + " = " + es + "; break " + lab + " }"
 				}
 			}
 			reps = append(reps, rep{off(x.Pos()), off(x.End()), t})
@@ -1356,6 +1458,12 @@ func genInline(p *packages.Package, s *inlSite, n int, src func(string) []byte) 
 	ast.Inspect(h.decl.Body, walk)
 	if bad != "" {
 		return nil, fmt.Errorf("%s", bad)
+	}
+	deferTail := ""
+	for di, d := range defers {
+		lab := fmt.Sprintf("%sD%d", pre, di+1)
+		reps = append(reps, rep{off(d.Pos()), off(d.End()), lab + ":\nfor {"})
+		deferTail = "\nbreak " + lab + "\n}\n" + hText(d.Call.Pos(), d.Call.End()) + deferTail
 	}
 	// renames outside the rewritten returns (those inside were applied by hText)
 	for _, ir := range idReps {
@@ -1377,6 +1485,7 @@ func genInline(p *packages.Package, s *inlSite, n int, src func(string) []byte) 
 		body = append(append(append([]byte{}, body[:r.a-ba]...), []byte(r.text)...), body[r.e-ba:]...)
 	}
 	b.Write(body)
+	b.WriteString(deferTail)
 	if nres > 0 && len(named) == nres {
 		// falling off the end of a function with named results cannot happen (the compiler demands a return)
 		_ = named
@@ -1888,6 +1997,33 @@ func hoistCondCalls(pkgs []*packages.Package, src func(string) []byte) (map[stri
 					if sg, ok := o.Type().(*types.Signature); ok && sg.Results().Len() == 1 {
 						if b, ok := sg.Results().At(0).Type().Underlying().(*types.Basic); ok && b.Kind() == types.Bool {
 							isNew[o] = true
+						}
+					}
+				}
+			}
+		}
+	}
+	// local closures that are only called and give one bool (what an inlined `forEach..(.., func(..) (stop bool))`
+	// helper leaves behind): the same treatment, so that inlineLocalClosures finds the call at a statement position
+	for _, hp := range pkgs {
+		if !smPkgs[hp.PkgPath] || hp.TypesInfo == nil {
+			continue
+		}
+		for _, f := range hp.Syntax {
+			for _, d := range f.Decls {
+				fd, ok := d.(*ast.FuncDecl)
+				if !ok || fd.Body == nil {
+					continue
+				}
+				for _, fam := range closureFamilies(hp, fd) {
+					if fam.bad != "" || exprHelperBody(&ast.FuncDecl{Name: ast.NewIdent("_"), Type: fam.lit.Type, Body: fam.lit.Body}) != nil {
+						continue
+					}
+					for o := range fam.vars {
+						if sg, ok := o.Type().Underlying().(*types.Signature); ok && sg.Results().Len() == 1 {
+							if b, ok := sg.Results().At(0).Type().Underlying().(*types.Basic); ok && b.Kind() == types.Bool {
+								isNew[o] = true
+							}
 						}
 					}
 				}
